@@ -999,6 +999,7 @@ func (r *runner) do(cfg caseCfg, nontrivial bool) {
 func run(c *h.Check) {
 	r := &runner{c: c, e: &env{}, vals: values()}
 	defer r.e.close()
+	runBatches(c)
 
 	// (a) round trip
 	for vi := range r.vals {
@@ -1095,6 +1096,17 @@ func run(c *h.Check) {
 }
 
 func replay(c *h.Check, rf *h.ReplayFile) []vrt.Violation {
+	var probe struct {
+		Part  string
+		Batch *batchCase
+	}
+	if json.Unmarshal(rf.Ops, &probe) == nil && probe.Part == "batch" && probe.Batch != nil {
+		var vs []vrt.Violation
+		for _, m := range runBatchCase(*probe.Batch) {
+			vs = append(vs, vrt.Violation{Kind: "roundtrip", Sig: "roundtrip batch: " + m, Detail: m})
+		}
+		return vs
+	}
 	var cfg caseCfg
 	if err := json.Unmarshal(rf.Ops, &cfg); err != nil {
 		vrt.MachineryFault("replay: %v", err)
